@@ -329,8 +329,9 @@ def build(case, d="."):
     return cs, files, "\n".join(lines) + "\n"
 
 
-def run_doc(case, raw_enabled, file_insertion):
-    """-> dict(raw_nodes, html, pformat, warnings, trace, files, exc)"""
+def run_doc(case, raw_enabled, file_insertion, parser=None):
+    """-> dict(raw_nodes, html, pformat, warnings, trace, files, exc)
+    parser: a Parser instance that has already parsed other documents (history: one instance, several settings)"""
     from docutils import nodes
     from docutils.core import publish_doctree, publish_from_doctree
     from lib.impl import scratch_dir
@@ -351,7 +352,7 @@ def run_doc(case, raw_enabled, file_insertion):
         src = os.path.join(d, "main.md")
         with record_fs() as tr, record_settings() as seen:
             try:
-                doc = publish_doctree(text, source_path=src, parser=Parser(), settings_overrides=so)
+                doc = publish_doctree(text, source_path=src, parser=parser or Parser(), settings_overrides=so)
             except Exception as e:
                 out["exc"] = e
                 return out
@@ -385,12 +386,18 @@ def body_of(html):
 def check_doc(ctx, case, quiet=False):
     """the property on one generated document under the four settings; returns list of (signature, what, exp, obs)"""
     problems = []
-    base = run_doc(case, True, True)
+    shared = None
+    if case.get("reuse"):
+        # history: ONE Parser instance parses the document under all four settings in turn (docutils allows a
+        # parser instance to be handed to several publish_* calls); each parse must honour ITS document's settings
+        from myst_parser.parsers.docutils_ import Parser
+        shared = Parser()
+    base = run_doc(case, True, True, shared)
     if "exc" in base:
         return [(f"exception:{type(base['exc']).__name__}", f"raised {base['exc']!r} with both settings enabled", None, None)]
     for raw_on, file_on in ((False, True), (True, False), (False, False)):
-        r = run_doc(case, raw_on, file_on)
-        tag = f"raw={'on' if raw_on else 'off'},file={'on' if file_on else 'off'}"
+        r = run_doc(case, raw_on, file_on, shared)
+        tag = f"raw={'on' if raw_on else 'off'},file={'on' if file_on else 'off'}" + (",parser-instance-reused" if shared else "")
         if "exc" in r:
             problems.append((f"exception:{type(r['exc']).__name__}", f"raised {r['exc']!r} under {tag}", None, repr(r["exc"])))
             continue
@@ -463,6 +470,8 @@ def localise(ctx, case, problems):
         return problems[0]
     for k in case["kinds"]:
         single = {"kinds": [k], "ext": case["ext"]}
+        if case.get("reuse"):
+            single["reuse"] = True
         ps = check_doc(ctx, single)
         same = [p for p in ps if p[0].split(":")[:2] == sig.split(":")[:2]]
         if same:
@@ -666,6 +675,13 @@ def search(ctx):
         ctx.nontriv(("single", k))
         if not check_case(ctx, case):
             nfail += 1
+    for k in RAW_KINDS + FILE_KINDS:
+        case = {"kinds": [k], "ext": EXT_ALL, "reuse": True}  # one Parser instance across the four settings
+        ctx.search_cases += 1
+        ctx.count("single-parser-reused:" + k)
+        ctx.nontriv(("single-reuse", k))
+        if not check_case(ctx, case):
+            nfail += 1
     for k in ("html-img", "html-admonition", "html-block"):
         case = {"kinds": [k], "ext": ["strikethrough"]}       # html_image / html_admonition off
         ctx.search_cases += 1
@@ -674,6 +690,9 @@ def search(ctx):
             nfail += 1
     for i in range(ctx.budget(60, 700, 500)):
         case = gen_doc(rng)
+        if i % 4 == 3:
+            case["reuse"] = True
+            ctx.count("doc:parser-instance-reused")
         ctx.search_cases += 1
         ctx.count("doc:%d-constructs" % len(case["kinds"]))
         if any(k in RAW_KINDS + FILE_KINDS for k in case["kinds"]):
@@ -710,7 +729,8 @@ LEVEL_TEXT = ("Proof (Coq 8.16, 9 theorems, all closed under the global context)
               "proofs: C20_src_is_model, C20_no_raw_survives_src, C20_include_refuses_before_io_src. Further tie on every run: the real "
               "loop vs the extracted model on generated trees, the include prefix vs the real directive with a recorded file-system "
               "trace, sentinel documents for every raw-capable and file-capable construct under the 2x2 settings with a dynamic "
-              "identity check of the settings object docutils code sees.")
+              "identity check of the settings object docutils code sees, also as histories in which one Parser instance parses the "
+              "document under the four settings in turn.")
 LEVEL_NOTE = ("Partial: docutils' own raw role/directive, derived roles, csv-table :file:, raw :file: and the rST include inside eval-rst "
               "honour the settings by docutils code (oracle O_docutils_checks) - tightened structurally by C20_settings_shared and "
               "dynamically by O_settings_identity, not modelled; document.traverse / reporter.warning are oracles (O_traverse, "
